@@ -15,9 +15,9 @@ import (
 	"github.com/cockroachdb/errors/domains"
 	"github.com/cockroachdb/errors/errorspb"
 	"github.com/cockroachdb/errors/extgrpc"
-	"github.com/cockroachdb/errors/join"
 	"github.com/cockroachdb/errors/exthttp"
 	gstatus "github.com/cockroachdb/errors/grpc/status"
+	"github.com/cockroachdb/errors/join"
 	"github.com/cockroachdb/logtags"
 	gogostatus "github.com/gogo/status"
 	pkgErr "github.com/pkg/errors"
@@ -45,6 +45,7 @@ type Spec struct {
 	Safe   []int // indexes of S the library declares PII-free
 	Lib    bool  // outermost Go layer is a library type
 	W      int   // generator weight
+	NoRoot bool  // never placed as the outermost layer (mon.coverTree puts a stack layer on top)
 }
 
 // Specs is the kind table.
@@ -103,8 +104,8 @@ func init() {
 	reg("isleaf", Leaf, 1, ix(0), nil, false, 1)
 	reg("lowleaf", Leaf, 1, ix(0), nil, false, 1)
 	reg("asleaf", Leaf, 1, ix(0), nil, false, 1)
-	reg("fmtargleaf", Leaf, 2, ix(0, 1), nil, false, 1) // FormatError prints an error VALUE as a format argument
-	reg("hdleaf", Leaf, 3, ix(0, 1, 2), nil, false, 1) // third-party leaf with its own hint and detail
+	reg("fmtargleaf", Leaf, 2, ix(0, 1), nil, false, 1)   // FormatError prints an error VALUE as a format argument
+	reg("hdleaf", Leaf, 3, ix(0, 1, 2), nil, false, 1)    // third-party leaf with its own hint and detail
 	reg("stacksafeleaf", Leaf, 2, ix(0), ix(1), false, 0) // weight 0: only placed explicitly (C12, C15); an unregistered type loses its stack in transfer
 	// library wrappers
 	reg("wrap", Wrap, 1, nil, ix(0), true, 4)
@@ -123,9 +124,9 @@ func init() {
 	reg("safedetails", Wrap, 3, ix(1), ix(0, 2), true, 2)
 	reg("telemetry", Wrap, 2, nil, ix(0, 1), true, 2)
 	reg("domain", Wrap, 1, nil, ix(0), true, 2)
-	reg("domainraw", Wrap, 1, nil, ix(0), true, 1)    // a domain declared directly from the exported string type (no "error domain:" prefix)
+	reg("domainraw", Wrap, 1, nil, ix(0), true, 1)   // a domain declared directly from the exported string type (no "error domain:" prefix)
 	reg("withstackdeep", Wrap, 0, nil, nil, true, 1) // WithStackDepth far beyond the bottom of the goroutine stack: a stack layer without frames
-	reg("domainnone", Wrap, 0, nil, nil, true, 1) // WithDomain(e, NoDomain): the boundary value
+	reg("domainnone", Wrap, 0, nil, nil, true, 1)    // WithDomain(e, NoDomain): the boundary value
 	reg("issuelink", Wrap, 2, nil, ix(0, 1), true, 2)
 	reg("issuelinkd", Wrap, 1, nil, ix(0), true, 1) // detail only, no URL
 	reg("issuelinku", Wrap, 1, nil, ix(0), true, 1) // URL only, no detail
@@ -160,6 +161,9 @@ func init() {
 	reg("elidewrap", Wrap, 1, ix(0), nil, false, 1)
 	reg("lowwrap", Wrap, 1, ix(0), nil, false, 1)
 	reg("oldfmtelide", Wrap, 1, ix(0), nil, false, 1) // old-style Format, Error() replaces the cause's text
+	reg("keymarkwrap", Wrap, 2, ix(0), nil, false, 1) // third-party wrapper with a type-key extension (ErrorKeyMarker); the extension is neutral: reported as part of the type mark, not in C12's list
+	reg("safemsgwrap", Wrap, 1, nil, nil, false, 1)   // redact.SafeMessager wrapper overriding its cause's message (neutral string: safe here, opaque after a hop); never the root
+	Specs["safemsgwrap"].NoRoot = true
 	reg("hdwrap", Wrap, 3, ix(0, 1, 2), nil, false, 1) // third-party wrapper with its own hint and detail
 	reg("ncwrap", Wrap, 1, ix(0), nil, false, 1)       // value-typed, not comparable
 	// barriers
@@ -457,6 +461,10 @@ func Build1(n *Node, m Built) error {
 		return &LOW{Msg: S[0], C: kids[0]}
 	case "oldfmtelide":
 		return &OldFmtElideWrap{kids[0], S[0]}
+	case "keymarkwrap":
+		return &KeyMarkWrap{kids[0], S[0], OneLine(S[1])}
+	case "safemsgwrap":
+		return &SafeMsgWrap{kids[0], S[0]}
 	case "hdwrap":
 		return &HDWrap{kids[0], S[0], S[1], S[2]}
 	case "ncwrap":
